@@ -86,7 +86,7 @@ def checkFacts : CheckFacts :=
     intBitsMax := some 512, shiftCountMax := some 1074, shiftClamp := 512, quoIntExact := true,
     quoEarlyReturn := false, zeroForm := .anyConst, untypedStays := true, floatShiftCount := true,
     convTypedChecked := true, reprConstValue := true, boolConvChecked := true, foldLogical := true,
-    cmpNotPushed := true, lenConstString := true, runeLitKeepsType := true }
+    cmpNotPushed := true, lenConstString := true, runeLitKeepsType := true, f32Direct := true }
 
 /-- the same before those repairs (what the extractor emits for a tree in which all of them are reverted) -/
 def checkFactsBeforeR3 : CheckFacts :=
@@ -94,7 +94,7 @@ def checkFactsBeforeR3 : CheckFacts :=
     intBitsMax := none, shiftCountMax := none, shiftClamp := 512, quoIntExact := false,
     quoEarlyReturn := true, zeroForm := .untypedOnly, untypedStays := false, floatShiftCount := false,
     convTypedChecked := false, reprConstValue := false, boolConvChecked := false, foldLogical := false,
-    cmpNotPushed := false, lenConstString := false, runeLitKeepsType := false }
+    cmpNotPushed := false, lenConstString := false, runeLitKeepsType := false, f32Direct := true }
 
 def evalFacts : EvalFacts :=
   { constOp := constOp, folds := folds, quo := quoSwitch, fixSkipsConst := true, constToken := constToken, chk := checkFacts }
